@@ -12,7 +12,8 @@
 // Every case is built as a REAL tree in a fresh temp directory and file.Find is called on it.
 // A call that does not return is turned into HANG twice over: the logger handed to Find counts the
 // iterations of the walk ("Looking in …" is logged once per directory visited) and gives up after
-// stepBudget of them — no real path has that many components —, and, should a non-terminating walk
+// stepBudget of them — the chains built here are fewer than 16 components deep, so a terminating upward
+// walk logs at most that many times —, and, should a non-terminating walk
 // not log, the supervisor's per-case Timeout kills the worker and records HANG for the case.
 package main
 
@@ -32,7 +33,7 @@ import (
 	"verif/harness/sup"
 )
 
-const stepBudget = 20000
+const stepBudget = 256
 
 type budgetExceeded struct{}
 
